@@ -28,6 +28,7 @@ type binderCase struct {
 	CtxExpected int    `json:"ctx_expected"`
 	Expect      string `json:"expect"`
 	Result      string `json:"result"`
+	CtxEnd      int    `json:"ctxend"` // 1: the last argument expression cancels the context of the evaluation
 }
 
 var binderMu sync.Mutex
@@ -82,13 +83,24 @@ func runBinder(c *Case) Verdict {
 	}
 	reset(c.Mode)
 	form := []types.MalType{types.Symbol{Val: c.Name}}
-	for _, a := range c.Args {
+	for i, a := range c.Args {
+		if i == len(c.Args)-1 && c.CtxEnd == 1 {
+			// the last argument is (cancel!), whose value is nil: the context ends while the arguments are evaluated
+			form = append(form, types.List{Val: []types.MalType{types.Symbol{Val: "cancel!"}}})
+			continue
+		}
 		form = append(form, quoted(a))
 	}
 	var res types.MalType
 	var eerr error
+	ectx, ecancel := context.WithCancel(context.Background())
+	defer ecancel()
+	ns.Set(types.Symbol{Val: "cancel!"}, types.Func{Fn: func(_ context.Context, _ []types.MalType) (types.MalType, error) {
+		ecancel()
+		return nil, nil
+	}})
 	kind, site, msg = guarded(10*time.Second, func() {
-		res, eerr = lisp.EVAL(context.Background(), types.List{Val: form}, ns)
+		res, eerr = lisp.EVAL(ectx, types.List{Val: form}, ns)
 	})
 	wasEntered, gotCtx, gotArgs := entered()
 	obs := map[string]interface{}{"entered": wasEntered, "ctx": gotCtx, "err": fmt.Sprint(eerr)}
